@@ -63,7 +63,12 @@ func (f *mpFam) postChain(segs []string) []string {
 		if e := r.Unmarshal(res.Data); e != nil {
 			die(2, "mp: response: %v", e)
 		}
-		out = append(out, r.Path)
+		// the entry must also be STORED at the address the chain answered with (owned by the folder's account)
+		if _, found := f.c.App.FileTreeKeeper.GetFiles(ctx, r.Path, ownerAddr(r.Path, acct)); !found {
+			out = append(out, "!not-stored-at:"+r.Path)
+		} else {
+			out = append(out, r.Path)
+		}
 		parent = r.Path
 	}
 	return out
